@@ -312,9 +312,24 @@ IOpQ(op, o, rhs, q) ==
                 /\ bufs' = Write(bufs, 1, 1)
                 /\ heap' = [heap EXCEPT ![o].unit = ResUnit(op, o, rhs)]
                 /\ res' = ObjRes(o)
-\* a Vector component update happens component after component; when the right-hand side aliases a later
-\* component of x the result would depend on that order - such operand pairs are not in the pool.
-IOpArgsOk(o, rhs) == IF rhs = 0 \/ rhs = o \/ IsArr(o) THEN TRUE ELSE ~Shares(o, rhs)
+\* x op= x.<c>: the right operand is one of x's own component Arrays (v /= v.x).  The statement makes no exception for a
+\* right operand that aliases x: the result is x op y with y as it was before the update.
+RECURSIVE WriteCells(_, _, _, _, _)
+WriteCells(b, o, nv, c, i) == IF c > NComp(o) THEN b
+                              ELSE IF i > NRows(o) THEN WriteCells(b, o, nv, c + 1, 1)
+                              ELSE WriteCells([b EXCEPT ![heap[o].comps[c].buf][heap[o].comps[c].idx[i]] = nv[c][i]], o, nv, c, i + 1)
+IOpSelf(op, o, c) ==
+  /\ En("iop") /\ ~IsArr(o) /\ c \in 1..NComp(o)
+  /\ ~(op = "div" /\ (heap[o].dt = "i8" \/ \E i \in 1..NRows(o) : RIsZero(Vals(o, c)[i])))
+  /\ Step([op |-> "iop", f |-> op, o |-> o, rhs |-> 0 - c, q |-> FALSE]) /\ UNCHANGED <<dgs, dss>>
+  /\ LET u == heap[o].unit
+         nv == [cc \in 1..NComp(o) |-> [i \in 1..NRows(o) |-> RApply(op, Vals(o, cc)[i], Vals(o, c)[i])]]
+     IN /\ bufs' = WriteCells(bufs, o, nv, 1, 1)
+        /\ heap' = [heap EXCEPT ![o].unit = CASE op \in {"add", "sub"} -> u [] op = "mul" -> UMul(u, u) [] op = "div" -> UDiv(u, u)]
+        /\ res' = ObjRes(o)
+\* a Vector is updated component after component; a right operand that aliases x (another view of its components) still
+\* contributes the values it had before the update (RhsVal reads the pre-state)
+IOpArgsOk(o, rhs) == TRUE
 IOp(op, o, rhs) == IOpQ(op, o, rhs, FALSE)
 
 \* ------------------------------------------------------------------ equality (C20)
@@ -414,6 +429,7 @@ Next ==
   \/ \E g \in Gs, p \in {<<3, 1, 2>>, <<2, 1>>, <<2, 2, 1>>} : DgSortByIdx(g, p)
   \/ \E op \in OpsUse, o \in (IF ObjUse = {} THEN Os ELSE ObjUse \cap Os), rhs \in {0} \cup (IF ObjUse = {} THEN Os ELSE ObjUse \cap Os) :
          IOpArgsOk(o, rhs) /\ \E q \in (IF rhs # 0 /\ IsArr(rhs) THEN BOOLEAN ELSE {FALSE}) : IOpQ(op, o, rhs, q)
+  \/ \E op \in OpsUse, o \in (IF ObjUse = {} THEN Os ELSE ObjUse \cap Os), c \in 1..3 : IOpSelf(op, o, c)
   \/ \E g, h \in Gs : DgEq(g, h)
   \/ \E d \in Ds, k \in Keys, g \in Gs : DsSet(d, k, g)
   \/ \E d \in Ds, k \in Keys : DsSetBad(d, k, 1) \/ DsUpdateBad(d, k, 5) \/ DsDel(d, k) \/ DsPop(d, k) \/ DsGet(d, k)
